@@ -645,6 +645,22 @@ func c15EndpointInputs(e *Env, ctrlW, ctrlR, dataW []byte) []c15Input {
 		add("ep-recv", "records:"+class, b, ownData, false)
 	}
 	hostile("filebegin-chunk-size-0", append(ds1(), rawFileBegin("srcroot/a.bin", 40, 0, 0)...))
+	// a complete, valid exchange (without End) followed by a late frame for an
+	// already finished file that announces an absurd payload length
+	{
+		ctrlNoEnd := ctrlW
+		if n := len(ctrlNoEnd); n > 0 && ctrlNoEnd[n-1] == transfer.VerifTypeEnd {
+			ctrlNoEnd = ctrlNoEnd[:n-1]
+		}
+		for _, ln := range []uint32{0x20000000, 0xFFFFFFFF, 0x01000000} {
+			late := binary.BigEndian.AppendUint64(nil, keyA)
+			late = binary.BigEndian.AppendUint32(late, 0)
+			late = binary.BigEndian.AppendUint32(late, ln)
+			late = binary.BigEndian.AppendUint32(late, 0)
+			late = append(late, 1, 2, 3)
+			add("ep-recv", fmt.Sprintf("data:late-frame-for-finished-file:len=%x", ln), ctrlNoEnd, append(append([]byte(nil), dataW...), late...), false)
+		}
+	}
 	hostile("field:filebegin-chunk-size:huge", append(ds1(), rawFileBegin("srcroot/a.bin", 40, 0xFFFFFFFF, 0)...))
 	hostile("datastreams-65535", []byte{transfer.VerifTypeDataStreams, 0xFF, 0xFF})
 	hostile("creditbatch-huge", append(ds1(), []byte{transfer.VerifTypeCreditBatch, 0xFF, 0xFF, 0xFF, 0xFF}...))
